@@ -11,6 +11,12 @@ TIERS = {"quick": {"Ns": (1, 2, 3, 4), "rsteps": 120},
          "thorough": {"Ns": (1, 2, 3, 4, 5), "rsteps": 1500}}
 
 
+_COMMON = ["set_all", "reset_all", "flip_all", "set_one", "set_one1", "reset_one", "flip_one", "ref_assign", "ref_flip", "ref_copy",
+           "and_assign", "or_assign", "xor_assign", "copy_assign", "bin_and", "bin_or", "bin_xor", "ctor_default", "ctor_ull"]
+SURFACE = {"basic": _COMMON,
+           "bitset": _COMMON + ["assign_not", "ctor_sv1", "ctor_sv2", "ctor_sv3", "ctor_sv5", "ctor_cstr1", "ctor_cstr2", "ctor_cstr4"]}
+
+
 def _inst(w):
     return "bitset" if w == 0 else "basic%d" % w
 
@@ -42,6 +48,12 @@ def model(tier, rep):
         if r["states"] != want:
             raise vlib.ModelFailure("%s: %d states, expected %d (not every pair of values reached)" % (name, r["states"], want))
         gen = [t for t in r["gen"] if t["op"] != "init"]
+        from collections import Counter
+        per_op = Counter(t["op"] for t in gen)
+        missing = [op for op in SURFACE[kind] if not per_op.get(op)]
+        if missing:                                    # vacuity guard: every action of the surface was exported
+            raise vlib.ModelFailure("%s: no transition exported for %s" % (name, missing))
+        rep.cov["modules"][name]["exported_per_op"] = dict(per_op)
         sc, st = vlib.plan_edges(gen, _state_key, lambda k: not any(json.loads(k)[1]["a"]) and not any(json.loads(k)[1]["b"]), _call,
                                  follow=lambda t: t["op"] == "ctor_ull")
         if st["unreachable"]:
@@ -77,7 +89,7 @@ def build_drivers(tier, std=True):
 def execute(tier, scripts, bins, impl):
     T = TIERS[tier]
     d = vlib.workdir("traces")
-    tasks, outs = [], []
+    tasks, outs, replays = [], [], []
     nscripts = nhist = 0
     for w in (WORDS if impl == "etl" else (0,)):
         kind = "bitset" if w == 0 else "basic"
@@ -86,6 +98,7 @@ def execute(tier, scripts, bins, impl):
             tp = os.path.join(d, "bitset_%s_%s_n%d_%s.ndjson" % (impl, tag, n, tier))
             tasks.append(([bins[(impl, w)], "replay", str(n), sp], tp))
             outs.append(tp)
+            replays.append(tp)
             nscripts += k
         for n in BIG:
             tp = os.path.join(d, "bitset_%s_%s_r%d_%s.ndjson" % (impl, tag, n, tier))
@@ -95,6 +108,15 @@ def execute(tier, scripts, bins, impl):
     res = vlib.run_parallel(tasks)
     errs = [l for _, err in res for l in err.splitlines()]
     summ = [l for l in errs if l.startswith("SUMMARY")]
+    # vacuity guard: one event per script unless accounted for (desynchronised / operation not provided / crash)
+    got = 0
+    for p in replays:
+        with open(p, "rb") as f:
+            got += sum(1 for _ in f)
+    ncrash = len([l for l in errs if l.startswith("CRASH")])
+    acc = sum(int(l.split("desync=")[1].split()[0]) + int(l.split("unsupported=")[1].split()[0]) for l in summ)
+    if ncrash == 0 and got + acc != nscripts:
+        raise vlib.ModelFailure("bitset driver (%s): %d scripts but %d events + %d accounted" % (impl, nscripts, got, acc))
     return outs, {"scripts": nscripts, "histories": nhist,
                   "unsupported": sorted({l for l in errs if l.startswith("UNSUPPORTED")}),
                   "desync": sum(int(l.split("desync=")[1].split()[0]) for l in summ),
@@ -130,3 +152,26 @@ def pipeline(tier, rep, calibrate=True):
     if calibrate:
         rep.cov["modules"]["Bitset"]["calibration_events_std"] = ctv["events"]
     return tv, st
+
+
+def replay(rec):
+    """check.py --replay: re-execute one saved deviation on the current tree. The event's pre-state is rebuilt by real calls
+    (set(pos) for every one bit), the recorded call runs on the recorded instantiation, BitsetTrace.tla judges it."""
+    ev = rec["event"]
+    tag, n = ev["inst"].split("_")
+    word = 0 if tag == "bitset" else int(tag[len("basic"):])
+    x0 = {"p": 0, "q": 0, "v": 0, "src": "a", "src2": "a", "val": [0, 0, 0, 0], "str": [], "pos": 0, "cnt": -1, "zero": 48, "one": 49}
+    lines = [{"reset": 1}]
+    for o in ("a", "b"):
+        for i, bit in enumerate(ev["pre"][o]):
+            if bit:
+                lines.append({"op": "set_one1", "o": o, "x": dict(x0, p=i)})
+    lines.append({"op": ev["op"], "o": ev["o"], "x": ev["x"], "last": 1})
+    d = vlib.workdir("bitset", "replay")
+    sp, tp = os.path.join(d, "script.ndjson"), os.path.join(d, "trace.ndjson")
+    with open(sp, "w") as f:
+        for ln in lines:
+            f.write(json.dumps(ln) + "\n")
+    exe = vlib.build("bitset_driver.cpp", "bitset_replay", flags=["-DBH_WORD=%d" % word, "-DBH_WIDTHS=" + n])
+    vlib.run([exe, "replay", n, sp], tp)
+    return vlib.tlc_tv("BitsetTrace.tla", "BitsetTrace.cfg", tp, "bitset_tv_replay", heap="2g")["deviations"]
